@@ -296,7 +296,7 @@ theorem reportSkip_wf (ext : Ext V) (ch : dagChannel V) (keys : List String) (h 
     · exact ⟨{ c with DataPredecessors := c.DataPredecessors.set k true },
         by simp [h1, h2], hc.1, set_keysNodup _ _ _ h2 hc.2⟩
     · exact ⟨c, by simp [h1, h2], hc⟩
-  exact h1
+  first | exact h1 | (split <;> exact h1)
 
 theorem nodup_eraseDups' (l : List Key) : l.eraseDups.Nodup := by
   induction hl : l.length using Nat.strongRecOn generalizing l with
